@@ -656,5 +656,6 @@ def run(ctx):
 
 
 def replay(case):
+    setup_process()
     fc = fails_as(case)
     return f'{fc}: {_LAST.get("detail")}' if fc else None
